@@ -27,6 +27,9 @@ func (g *gen) c11Targets(hook bool) []targetSpec {
 		{"regsafe", "String", strVerbs},
 		{"errsafefmt", "SafeFormat", anyVerbs},
 		{"nilstringer", "String", []string{"%v", "%s"}},
+		{"liststringer", "String", strVerbs},
+		{"intstringer", "String", strVerbs},
+		{"strformatter", "Format", anyVerbs},
 	}
 	if hook {
 		ts = append(ts, targetSpec{"hookerr", "Hook", anyVerbs})
@@ -37,6 +40,7 @@ func (g *gen) c11Targets(hook bool) []targetSpec {
 			targetSpec{"errstr", "Error", strVerbs},
 			targetSpec{"errfmt", "Format", anyVerbs},
 			targetSpec{"nilerror", "Error", []string{"%v", "%s"}},
+			targetSpec{"maperror", "Error", strVerbs},
 		)
 	}
 	return ts
